@@ -29,6 +29,18 @@ CLAIMED = {
             "Go race detector (-race build, GORACE log parsed and deduplicated by kyber entry-point pair) over 16 goroutines running the read-only method set on shared non-normalised objects of 26 kinds, plus comparison of every concurrent result with the sequential run",
             "Shared points/scalars of all 20 groups, pairing operands and GT elements of the 5 suites, shared keys/proofs/polynomials/masks/rings/random streams for the signature, proof, PVSS, ECIES and anon schemes are used concurrently for reading only; objects are rebuilt for every repetition so lazily normalising reads are hit from their first call; the hot path contains no synchronisation of the harness's own.",
             "happens-before race detection covers only accesses that occurred in the run; assembly is not instrumented; results compared with a sequential twin built from the same seed."),
+    "C03": ("exploration",
+            "runtime monitor: every reachable point (non-normalised internal forms, leading-zero coordinates) and reduced scalar encoded/decoded/streamed/hexed; byte-identity compared with Equal and with a discrete-log/residue shadow, 20 groups",
+            "Per value: advertised length, idempotent encoding, decode-Equal, byte-identical re-encoding, value unchanged by encoding (compared with a never-encoded twin), MarshalTo/UnmarshalFrom and util/encoding hex helpers carry exactly those bytes; per pair: Equal <=> identical bytes <=> equal shadow.",
+            "the discrete-log / residue shadow kept in math/big decides which pairs are equal; clamped Ed25519 keys are excluded as the property excludes them."),
+    "C06": ("exploration",
+            "runtime monitor: Pair/ValidatePairing on operand recipes (root point, discrete log in math/big, 20 internal forms incl. identity, negated, non-normalised, decoded copies) for the 5 suites, judged through GT arithmetic and the known discrete logs",
+            "Bilinearity e(aP,bQ) = ab*e(P,Q), additivity in each argument, identity operands, non-degeneracy, form-independence, and ValidatePairing compared both with Pair equality and with ground truth from the discrete logs, on 12 tuple families of true/false/identity instances.",
+            "GT group laws (C01) are used to compare pairing values; discrete logs kept by the harness are the ground truth for ValidatePairing."),
+    "C19": ("exploration",
+            "runtime monitor: random Write/Read/XORKeyStream/Reseed/Clone/Reset programs with re-chunked twins against a single-shot reference built on x/crypto blake2 XOFs and crypto/sha3; rejection-sampling reference for random.Int/Bits; reader sets with failing/short readers",
+            "Every XOF output is compared with a single-shot reference and with a re-chunked twin; clones are observed after every operation; Write-after-Read must panic until Reseed; Reset judged on factory-made XOFs. random.Int must equal the first masked draw below the modulus of the recorded stream; random.New(readers) is re-chunked, bit-flipped and starved.",
+            "x/crypto blake2b/blake2s XOF and crypto/sha3 SHAKE256 as primitives; recorded streams."),
 }
 
 PENDING = {}
